@@ -75,6 +75,15 @@ func (d *PathDecoder) fileByName(name string) (*hcl.File, error) {
 	return f, nil
 }
 
+// bodyForFile returns the root body of a native syntax file
+func (d *PathDecoder) bodyForFile(name string, f *hcl.File) (*hclsyntax.Body, error) {
+	body, isHcl := f.Body.(*hclsyntax.Body)
+	if !isHcl {
+		return nil, &UnknownFileFormatError{Filename: name}
+	}
+	return body, nil
+}
+
 func (d *PathDecoder) bodyForFileAndPos(name string, f *hcl.File, pos hcl.Pos) (*hclsyntax.Body, error) {
 	body, isHcl := f.Body.(*hclsyntax.Body)
 	if !isHcl {
